@@ -21,8 +21,12 @@ def gen_cases(ctx):
     lines, meta = [], []
     nbuf = 3000 if ctx.quick else 60000
     lens = [0, 1, 2, 3, 7, 8, 9, 15, 16, 17, 255, 256, 257, 1023, 1024, 4095, 4096]
+    # lengths around the widths a narrower loop counter could have (uint8/uint16 wrap)
+    big = [65535, 65536, 65537, 70001, 131071, 131072, 131073, 200003]
     for i in range(nbuf):
-        if i < len(lens) * 4:
+        if i < len(big) * (1 if ctx.quick else 4):
+            n = big[i % len(big)]
+        elif i < len(lens) * 4:
             n = lens[i % len(lens)]
         else:
             n = rnd.choice([rnd.randrange(0, 20), rnd.randrange(0, 300), rnd.randrange(0, 4097)])
